@@ -52,8 +52,11 @@ class FlowWalker:
     def __init__(self, events: Callable[[ast.AST, Ctx], List[Any]],
                  transfer: Callable[[State, Any, Ctx], State],
                  inline: Callable[[ast.Call, Ctx], Sequence[FnRef]],
-                 max_depth: int = 8) -> None:
+                 max_depth: int = 8, loop_keep: Optional[Callable[[Any], bool]] = None) -> None:
         self.events, self.transfer, self.inline = events, transfer, inline
+        # facts generated inside a loop body normally do not survive the loop (zero iterations); loop_keep names the
+        # facts for which the client assumes at least one iteration (stated in the client's assumptions)
+        self.loop_keep = loop_keep
         self.max_depth = max_depth
         self.ctx = Ctx()
         self._try_acc: List[Optional[State]] = []
@@ -133,6 +136,7 @@ class FlowWalker:
             if isinstance(s, ast.For):
                 state = self._expr(s.iter, state)
             entry = state
+            out: Optional[State] = None
             for _ in range(4):
                 st = entry
                 if isinstance(s, ast.While):
@@ -145,6 +149,8 @@ class FlowWalker:
                     break
                 entry = new_entry
             after = entry
+            if self.loop_keep is not None and out is not None:
+                after = after | frozenset(f for f in out if self.loop_keep(f))
             if isinstance(s, ast.While):
                 after = self._expr(s.test, after)
             if s.orelse:
